@@ -1349,6 +1349,24 @@ func (fx *FnExec) evalCallC(x *ast.CallExpr, env *evalEnv) (cval, error) {
 			return cval{}, err
 		}
 		return boolr("(" + fn.Name + " ((" + qn + " " + sort + ")) " + body.S + ")")
+	case "rangeover": // rangeover(): the slice a "for ... := range" loop walks (it often has no name)
+		if env.loop == nil {
+			return cval{}, fmt.Errorf("rangeover() outside a loop clause")
+		}
+		for _, in := range env.loop.Instrs {
+			bo, ok := in.(*ssa.BinOp)
+			if !ok || bo.Op != token.LSS {
+				continue
+			}
+			call, ok := bo.Y.(*ssa.Call)
+			if !ok {
+				continue
+			}
+			if b, isB := call.Call.Value.(*ssa.Builtin); isB && b.Name() == "len" && len(call.Call.Args) == 1 {
+				return fx.cvalOf(fx.val(call.Call.Args[0])), nil
+			}
+		}
+		return cval{}, fmt.Errorf("rangeover(): the loop is not a range over a slice")
 	case "cur": // cur(x): the current value of a parameter that the function reassigns (the phi named x)
 		id, ok := x.Args[0].(*ast.Ident)
 		if !ok {
